@@ -248,6 +248,15 @@ def enum_long(tier):
             yield {"n": n, "P": P, "rainfall": rainfall, "seed": n + k,
                    "year": [1975, 2001, 2030, 1999][k],
                    "unit": UNITS[k % 4]}
+    # roughly daily observations over more than 2^31 seconds (69 / 140
+    # years): period starts beyond the range of a 32-bit count of seconds
+    yield {"n": 25500, "P": 3600, "rainfall": False, "seed": 77,
+           "year": 1950, "unit": "s", "steps": "daily"}
+    if tier == "thorough":
+        yield {"n": 25500, "P": 1800, "rainfall": True, "seed": 78,
+               "year": 1901, "unit": "us", "steps": "daily"}
+        yield {"n": 51000, "P": 3600, "rainfall": True, "seed": 79,
+               "year": 1880, "unit": "ms", "steps": "daily"}
 
 
 def long_oracle(case):
@@ -255,14 +264,18 @@ def long_oracle(case):
     of the same definition (cumulative integral at the period ends)."""
     n, P, rainfall = case["n"], case["P"], case["rainfall"]
     rng = np.random.RandomState(case["seed"])
-    steps = rng.choice([60, 360, 600, 900, 1800, 2700, 3600, 5400, 40000],
-                       size=n - 1,
-                       p=[.2, .3, .2, .1, .1, .04, .03, .02, .01])
+    if case.get("steps") == "daily":
+        steps = rng.choice([43200, 86400, 129600, 600000], size=n - 1,
+                           p=[.2, .6, .19, .01])
+    else:
+        steps = rng.choice([60, 360, 600, 900, 1800, 2700, 3600, 5400,
+                            40000], size=n - 1,
+                           p=[.2, .3, .2, .1, .1, .04, .03, .02, .01])
     secs = np.concatenate([[0], np.cumsum(steps)]).astype(np.int64)
     vals = np.round(rng.gamma(2., 2., size=n), 3)
     vals[rng.uniform(size=n) < 0.002] = np.nan
     vals[rng.uniform(size=n) < 0.002] = -1.0
-    maxgap = 7200
+    maxgap = 432000 if case.get("steps") == "daily" else 7200
     t0 = pd.Timestamp(year=case["year"], month=3, day=7, hour=5, minute=13)
     idx = pd.DatetimeIndex(t0.value + secs * 10**9).as_unit(case["unit"])
     se = pd.Series(vals, index=idx)
@@ -329,7 +342,9 @@ def long_oracle(case):
                         f"exact period {'sum' if rainfall else 'average'} "
                         f"{exp[i]!r} (P={P}, rainfall={rainfall}, "
                         f"unit={case['unit']})")
-    return {"nt": True, "labels": [f"n:{n}", f"periods-judged:"
+    return {"nt": True, "labels": [f"n:{n}",
+                                   "span>2^31s" if P * nper > 2**31
+                                   else "span<=2^31s", f"periods-judged:"
                                    f"{'>1e4' if judged.sum() > 1e4 else '<=1e4'}"]}
 
 
